@@ -233,8 +233,8 @@ def run(ctx):
         written = sorted(set(S.written))
         wS = wr_tab.get(tag)
         read = sorted(m for m in (wS.members if wS else set()) if m in UNION_WIDTH or m in ("s", "b"))
-        ok = not cls.startswith("?")
-        detail = {"tag": tag, "va_arg": S.va_types, "written": written, "writer_reads": read, "class": cls}
+        ok = not cls.startswith("?") and not getattr(S, "narrowing", [])
+        detail = {"tag": tag, "va_arg": S.va_types, "written": written, "writer_reads": read, "class": cls, "narrowing_casts": getattr(S, "narrowing", [])}
         if ok and cls in ("4", "8"):
             ww = {UNION_WIDTH.get(m.split(".")[0]) for m in written}
             rw = {UNION_WIDTH.get(m) for m in read}
@@ -244,7 +244,7 @@ def run(ctx):
         elif ok and cls == "blob":
             ok = "b" in read
         ctx.ob("R01.5", "rtosc_v2args['%s']" % tag, ok, site=A.where(sw), detail=detail,
-               what="tag '%s': va_arg %s stored into %s, writer reads %s" % (tag, S.va_types, written, read))
+               what="tag '%s': va_arg %s stored into %s%s, writer reads %s" % (tag, S.va_types, written, (" after a cast to %s (narrower than the member: the value is cut)" % getattr(S, "narrowing", [])) if getattr(S, "narrowing", []) else "", read))
     ctx.require_count("R01.5", 11)
 
     # ---- R01.6
@@ -266,6 +266,14 @@ def run(ctx):
     ctx.ob("R01.7", "rtosc_avmessage", not bad, site=A.where(lp),
            detail={"rtosc_amessage_consumes_an_element_for": "".join(t for t in AS.TAGS if cons[t]), "sequences": sum(15 ** n for n in (1, 2, 3)), "mismatches": bad[:4]},
            what="rtosc_avmessage stores argument values in other array elements than rtosc_amessage reads them from: %s" % bad[:2])
+
+
+    # ---- R01.11: arg-val kinds that are no OSC tags
+    ctx.rule("R01.11", "AV-KINDS: what rtosc_avmessage writes into the type string are OSC type tags: for the argument-value kind 'a' (an array header; its elements follow) it does not write the kind letter itself - OSC spells an array with '[' and ']' around the elements' tags")
+    st11 = AS.stored_tag(ua, lp, tid, vid, "a")
+    ctx.ob("R01.11", "rtosc_avmessage: kind 'a'", "a" not in st11, site=A.where(lp), detail={"stored_into_the_type_string": st11},
+           key="R01.11:rtosc_avmessage:array kind written as a tag",
+           what="rtosc_avmessage copies the argument-value kind 'a' (array) into the type tag string and passes over the array's elements: {[1 2] 3} becomes `,ai` with one value instead of `,[ii]i`")
 
 
 def pad_obligations(ctx, u, rule, fnames):
